@@ -52,7 +52,9 @@ def cases(draw, tier):
             "R0": R0, "iota": iota, "twist_cells": k, "modes": [list(m) for m in modes],
             "noise": draw(st.sampled_from([0.0, 0.1, 1.0])), "seed": draw(st.integers(0, 2 ** 16)),
             "const": draw(st.floats(-3, 3)), "roll": draw(st.integers(1, 15)), "alpha": draw(st.floats(-2, 2)),
-            "rows": draw(st.lists(st.floats(0, 0.999), min_size=1, max_size=2))}
+            "rows": draw(st.lists(st.floats(0, 0.999), min_size=1, max_size=2)),
+            # a radial grid of integer dtype (upstream's own advection tests build eta_grid[0] = np.array([1]))
+            "int_r": draw(st.integers(0, 4)) == 0}
 
 
 def build(case, nz=None, ntheta=None):
@@ -67,7 +69,7 @@ def build(case, nz=None, ntheta=None):
     theta = np.asarray(basis.greville, dtype=float)
     dz = TWO_PI * case["R0"] / nz
     zgrid = dz * np.arange(nz)
-    rgrid = np.linspace(0.1, 14.5, case["nr"])
+    rgrid = np.arange(1, case["nr"] + 1) if case.get("int_r") else np.linspace(0.1, 14.5, case["nr"])
     eta = [rgrid, theta, zgrid]
     layout = Layout("v_parallel_1d", [case["p0"]], [0, 2, 1], eta, [case["coord"]])
     consts = Constants()
